@@ -35,7 +35,71 @@ THEOREMS = ["JanetModel.Props.C03." + t for t in (
     # session 3: NaN inside the model type; regenerated guards of janet_struct_put_ext / janet_table_put
     "string_compare_loop_is_lex", "string_equal_loop_is_byte_equality",
     "laws_on_nan_free_values", "nan_breaks_the_laws", "struct_put_ignores_nan_key", "struct_by_final_map_nan", "struct_put_guards_tie",
+    # session 4: janet_symbol_gen on the symbol-cache model
+    "gensym_probe_loop_tie", "gensym_fresh", "symcache_unique_gensym",
 )]
+# which law of a symbol-cache scenario to report first (the most direct statement of the property comes first)
+SYM_LAW_ORDER = ["gensym-duplicates-live-symbol", "symbol-duplicate-live", "symbol-duplicate-after-collect", "compare-zero-iff-equals", "symbol-identity",
+                 "symbol-not-equal", "gensym-returns-live-symbol", "gensym-not-interned", "symcache-lost-live-symbol", "symcache-duplicate-entry",
+                 "symcache-unreachable-entry"]
+
+
+def _first_law(laws):
+    def rank(l):
+        n = l.split(" ")[1]
+        return SYM_LAW_ORDER.index(n) if n in SYM_LAW_ORDER else len(SYM_LAW_ORDER)
+    return sorted(laws, key=rank)[0]
+
+
+def _show_hist_ops(tokens, upto=None):
+    out = []
+    for t in tokens[:upto]:
+        if t[0] in "ID":
+            try:
+                nm = bytes.fromhex(t[1:]).decode(errors="replace")
+            except ValueError:
+                nm = t[1:]
+            out.append(("intern " if t[0] == "I" else "sweep ") + nm)
+        else:
+            out.append({"G": "gensym", "X": "(collect done)"}.get(t, t))
+    return out
+
+
+def run_symhist(ctx, hx, exe, seed, nhist, nops, nmodel):
+    """symbol-cache histories on a fresh VM: direct laws in C + bit-exact replay by the Lean model (slots, counters, gensym counter)"""
+    rc, out, err = run_cmd([hx, "symhist", str(seed), str(nhist), str(nops)], timeout=1500, env=ENV)
+    out = out.decode(errors="replace")
+    hops, hres, laws, summary = {}, {}, [], None
+    for l in out.splitlines():
+        if l.startswith("hops "):
+            t = l.split(" ")
+            hops[int(t[1])] = t[2:]
+        elif l.startswith("hres "):
+            t = l.split(" ")
+            hres[int(t[1])] = t[2:]
+        elif l.startswith("law "):
+            laws.append(l)
+        elif l.startswith("summary symhist"):
+            t = l.split(" ")
+            summary = dict(zip(t[2::2], t[3::2]))
+    res = {"summary": summary, "laws": laws, "rc": rc, "err": err.decode(errors="replace")[-1500:], "diffs": [], "model_histories": 0, "model_ops": 0,
+           "hops": hops}
+    if exe:
+        ids = [h for h in sorted(hops) if h in hres][:nmodel]
+        mo = ctx.model(["symhist " + " ".join(hops[h]) for h in ids], exe=exe) if ids else []
+        res["model_histories"] = len(ids)
+        if len(mo) != len(ids):
+            res["diffs"].append({"op": "driver", "impl": "%d histories" % len(ids), "model": "%d lines" % len(mo)})
+        for h, line in zip(ids, mo):
+            mt, it = line.split(" ") if line else [], hres[h]
+            res["model_ops"] += len(it)
+            if mt != it:
+                k = next((k for k in range(min(len(mt), len(it))) if mt[k] != it[k]), min(len(mt), len(it)))
+                res["diffs"].append({"op": "symbol cache history %d, op %d (%s)" % (h, k, _show_hist_ops(hops[h][k:k + 1])),
+                                     "history_so_far": _show_hist_ops(hops[h], k + 1)[-40:],
+                                     "impl": (it[k] if k < len(it) else "<end>")[:400], "model": (mt[k] if k < len(mt) else "<end>")[:400]})
+    return res
+
 ENV = dict(os.environ, ASAN_OPTIONS="detect_leaks=0:abort_on_error=0", UBSAN_OPTIONS="print_stacktrace=1")
 HARNESS_SRC = os.path.join(VERIF, "harness/C03/pool.c")
 CORPUS = os.path.join(VERIF, "corpus/C03")
@@ -481,7 +545,8 @@ def run(ctx, scripts=None):
     rounds, per = (5, 2500) if quick else (12, 6000)
     if broken:
         rounds *= 2
-    rc, out, err = run_cmd([hx, "symcache", str(ctx.rng.fork("symcache").next() % (1 << 62)), str(rounds), str(per)], timeout=1500, env=ENV)
+    symseed = ctx.rng.fork("symcache").next() % (1 << 62)
+    rc, out, err = run_cmd([hx, "symcache", str(symseed), str(rounds), str(per)], timeout=1500, env=ENV)
     out = out.decode(errors="replace")
     symlaws = [l for l in out.splitlines() if l.startswith("law ")]
     for l in out.splitlines():
@@ -490,12 +555,39 @@ def run(ctx, scripts=None):
             sym_summary = dict(zip(t[2::2], t[3::2]))
     if symlaws:
         direct.append("symcache")
-        ctx.violation("law:" + symlaws[0].split(" ")[1], {"kind": "symcache", "laws": symlaws[:20], "args": ["symcache", rounds, per], "seed": ctx.seed,
-                                                          "rc": rc, "stderr": err.decode(errors="replace")[-1500:]},
-                      what="symbol cache: %s%s" % (symlaws[0], "" if rc == 0 else " (then the harness crashed, rc=%s)" % rc))
+        fl0 = _first_law(symlaws)
+        ctx.violation("law:" + fl0.split(" ")[1], {"kind": "symcache", "laws": [fl0] + symlaws[:20], "args": ["symcache", symseed, rounds, per], "seed": ctx.seed,
+                                                   "rc": rc, "stderr": err.decode(errors="replace")[-1500:]},
+                      what="symbol cache (core environment loaded, real collections; re-run: pool symcache %d %d %d): %s%s" % (
+                          symseed, rounds, per, fl0, "" if rc == 0 else " (then the harness crashed, rc=%s)" % rc))
     elif rc != 0 or sym_summary is None:
         ctx.violation("symcache-crash", {"kind": "crash", "rc": rc, "stderr": err.decode(errors="replace")[-2000:], "stdout": out[-1000:]},
                       what="symbol cache scenario crashed (rc=%s)" % rc)
+    # ------------------------------------------------------------------ symbol-cache histories on a fresh VM (direct + model), session 4
+    nh, nho, nhm = (60, 150, 30) if quick else (500, 220, 200)
+    if broken:
+        nh *= 3
+    hseed = ctx.rng.fork("symhist").next() % (1 << 62)
+    sh = run_symhist(ctx, hx, exe, hseed, nh, nho, nhm)
+    symhist_summary = sh["summary"]
+    if sh["laws"]:
+        fl0 = _first_law(sh["laws"])
+        t = fl0.split(" ")
+        hno = int(t[2]) if t[2].lstrip("-").isdigit() else -1
+        direct.append("symhist")
+        ctx.violation("symhist:" + t[1], {"kind": "symhist", "laws": [fl0] + sh["laws"][:20], "args": ["symhist", hseed, nh, nho], "history": hno,
+                                          "history_ops": _show_hist_ops(sh["hops"].get(hno, []))[:400], "rc": sh["rc"], "stderr": sh["err"]},
+                      what="symbol cache history on a fresh VM (janet_symbol / janet_keyword / janet_symbol_gen / janet_collect; re-run: pool symhist %d %d %d, "
+                           "history %d): %s%s" % (hseed, nh, nho, hno, fl0, "" if sh["rc"] == 0 else " (then the harness crashed, rc=%s)" % sh["rc"]))
+    elif sh["rc"] != 0 or symhist_summary is None:
+        ctx.violation("symhist-crash", {"kind": "crash", "rc": sh["rc"], "stderr": sh["err"], "args": ["symhist", hseed, nh, nho]},
+                      what="symbol cache history scenario crashed (rc=%s)" % sh["rc"])
+    tot["model_lines"] += sh["model_ops"]
+    tot["model_diffs"] += len(sh["diffs"])
+    if sh["diffs"]:
+        diffs_all += sh["diffs"][:3]
+        broken.append("correspondence model/impl on symbol-cache histories: %d differing histories, first %r" % (len(sh["diffs"]), sh["diffs"][0]))
+        ctx.broken.append(broken[-1])
     # ------------------------------------------------------------------ struct layout scenario (direct + model)
     lay_summary = None
     nsets, maxperm, nmodel = (2500, 200, 40) if quick else (30000, 400, 200)
@@ -658,6 +750,7 @@ def run(ctx, scripts=None):
         "model_lines": tot["model_lines"], "model_diffs": tot["model_diffs"], "values_holding_nan_through_model": tot.get("nan_values_in_model", 0),
         "string_loop_pairs_through_model": tot.get("string_loop_pairs", 0), "struct_layout_rebuilds": tot["layouts"],
         "symbols_checked_for_identity": tot["symbols"], "symcache": sym_summary,
+        "symcache_histories_fresh_vm": symhist_summary, "symcache_histories_through_model": sh["model_histories"], "symcache_history_ops_through_model": sh["model_ops"],
         "struct_layout_scenario": lay_summary, "struct_layout_scenario_model_rebuilds": lay_model,
         "duplicate_key_scenario": dup_summary, "duplicate_key_scenario_model_lines": dup_model,
         "recipe_histogram": dict(sorted(recipe_hist.items())), "type_histogram": type_hist, "struct_capacity_histogram": {str(k): v for k, v in sorted(cap_hist.items())},
@@ -667,6 +760,7 @@ def run(ctx, scripts=None):
         tot["values"], tot["pairs"], tot["triples"], tot["vmcalls"], tot["classes"], tot["multi_classes"], tot["model_lines"], tot["model_diffs"], tot["layouts"], sym_summary))
     ctx.say("layout scenario %s model rebuilds %d; literal-shape forms %d" % (lay_summary, lay_model, tot["litforms"]))
     ctx.say("duplicate-key scenario %s model lines %d" % (dup_summary, dup_model))
+    ctx.say("symbol-cache histories %s through model: %d histories, %d ops" % (symhist_summary, sh["model_histories"], sh["model_ops"]))
     return ctx.finish("proof", cov, assumptions=[
         "NaN is excluded from the laws (property text) but is part of the model type: laws proved on the NaN-free values of JVal F64, NaN keys refused by struct put (proved), "
         "hash / compare / equals of values holding NaN compared with the implementation (equals only when at most one side holds NaN: the C's pointer short-cut is not modelled); "
@@ -683,6 +777,18 @@ def replay(ctx, path):
     print(json.dumps({k: v for k, v in r.items() if k != "script"}, indent=1)[:3000])
     if r.get("script"):
         return run(ctx, scripts=[("replay", r["script"], None, None)])
+    if r.get("kind") in ("symhist", "symcache") and r.get("args"):
+        ctx.build.boot()
+        hx = ctx.build.harness("asan", "c03pool", [HARNESS_SRC])
+        rc, out, err = run_cmd([hx] + [str(a) for a in r["args"]], timeout=3000, env=ENV)
+        laws = [l for l in out.decode(errors="replace").splitlines() if l.startswith("law ")]
+        for l in laws[:10]:
+            print(l)
+        if laws or rc != 0:
+            fl0 = _first_law(laws) if laws else None
+            ctx.violation("%s:%s" % ("symhist" if r["kind"] == "symhist" else "law", fl0.split(" ")[1] if fl0 else "crash"), dict(r, laws=laws[:10]),
+                          what="replay: %s" % (fl0 if fl0 else "rc=%s" % rc))
+        return ctx.finish("proof", {"evaluations": int(r["args"][2]), "distinct_nontrivial": int(r["args"][2]), "rule": "replay of a symbol-cache scenario", "samples": laws[:3]})
     if r.get("kind") == "dups" and r.get("args"):
         # re-run the duplicate-key scenario with the recorded seed / sizes on the current tree
         ctx.build.boot()
